@@ -1,4 +1,5 @@
-"""C08 / C13 thorough tier: a handful of scripts on REAL processes (real multiprocessing, real clock, real kill).
+"""C08 / C13 thorough tier (and two anchor scripts in C13's quick tier): a handful of scripts on REAL processes (real
+multiprocessing, real clock, real kill).
 Generous margins; a script whose run shows an anomaly is run again twice and only anomalies present in all three
 runs are reported (`confirmed`), the others are listed as `inconclusive`."""
 import gc
@@ -20,13 +21,32 @@ class Rec(object):
         self.id = r
 
 
+class ServiceError(Exception):
+    """pickles (class + self.args = (message,)) and does not unpickle (__init__ wants two arguments): an answer that
+    carries one leaves the worker and makes the parent's Queue.get raise TypeError"""
+
+    def __init__(self, code, message):
+        super(ServiceError, self).__init__(message)
+        self.code = code
+
+
+class Stuck(BaseException):
+    """raised by the watchdog timer inside a parent that blocks for ever (not an Exception: the equalizer's
+    catch-all must not turn it into a verdict)"""
+
+
 class RealPB(object):
-    def __init__(self, r, unpicklable=False):
+    def __init__(self, r, unpicklable=False, unloadable=False):
         self.original_recording = Rec(r)
         self.recorded_outputs = [('rec', r)]
         self.playback_outputs = [('play', r)]
         if unpicklable:
             self.handle = lambda: 0        # cannot cross the process boundary: mp.Queue's feeder thread drops it
+        if unloadable:
+            self.handle = ServiceError(7, 'service said no')
+
+
+WATCHDOG = 15.0     # seconds after which a run that is still going is declared stuck (the scripts take < 4 s)
 
 
 def run_real_once(case, dedicated=True):
@@ -54,6 +74,8 @@ def run_real_once(case, dedicated=True):
                 time.sleep(int(b[5:]) * eqreal.SLOW_STEP)
             if b == 'drops':
                 return RealPB(r, unpicklable=True)
+            if b == 'unloadable':
+                return RealPB(r, unloadable=True)
         return RealPB(r)
 
     def extractor(outs):
@@ -94,6 +116,25 @@ def run_real_once(case, dedicated=True):
     out, walls = [], []
     outcome = 'completed'
     deadline = time.time() + 60
+    kills = set(case.get('kill_idle_after', []))
+    dog = {'armed': True, 'fired': 0}
+
+    def on_alarm(signum, frame):
+        # fires again every second: the finally block of run_comparison blocks in the same place once more
+        if dog['armed']:
+            dog['fired'] += 1
+            raise Stuck()
+
+    def kill_idle_worker(k):
+        """somebody else's SIGKILL hits the worker between two replays (it has answered recording #k and sleeps)"""
+        if k in kills:
+            time.sleep(0.3 + 0.013 * (k % 5))      # not a multiple of a plausible poll period: no phase lock
+            for p in multiprocessing.active_children():
+                try:
+                    os.kill(p.pid, signal.SIGKILL)
+                except OSError:
+                    pass
+            time.sleep(0.2)
 
     def loop():
         k = 0
@@ -106,19 +147,23 @@ def run_real_once(case, dedicated=True):
                 raise S.ConsumerError()
             if time.time() > deadline:
                 raise TimeoutError()
+            kill_idle_worker(k)
             t = time.time()
 
+    old_handler = signal.signal(signal.SIGALRM, on_alarm)
+    signal.setitimer(signal.ITIMER_REAL, WATCHDOG, 1.0)
     try:
         if mode == 'close':
             gen = eq.run_comparison()
             t = time.time()
-            for _ in range(n):
+            for j in range(n):
                 try:
                     c = next(gen)
                 except StopIteration:
                     break
                 walls.append(round(time.time() - t, 2))
                 out.append(S.proj(c))
+                kill_idle_worker(j + 1)
                 t = time.time()
             gen.close()
             del gen
@@ -134,7 +179,25 @@ def run_real_once(case, dedicated=True):
                 outcome = 'stuck'
     except SystemExit:
         outcome = 'abort-exit'
-    gc.collect()
+    except Stuck:
+        dog['armed'] = False
+        outcome = 'stuck'
+    except Exception:
+        # once the watchdog has broken into a blocked Event.set(), the finally block of run_comparison finds the
+        # event's condition half-updated and fails on its own (AssertionError inside notify)
+        if not dog['fired']:
+            raise
+        dog['armed'] = False
+        outcome = 'stuck'
+    try:
+        gc.collect()
+    except Stuck:
+        pass
+    dog['armed'] = False
+    signal.setitimer(signal.ITIMER_REAL, 0)
+    signal.signal(signal.SIGALRM, old_handler)
+    if dog['fired']:
+        outcome = 'stuck'      # also when the interpreter swallowed it inside the finaliser of a dropped generator
     ended = time.time()
     # no worker left: active_children() (which also reaps) must become empty within about a second
     left = multiprocessing.active_children()
@@ -165,8 +228,8 @@ def run_case(case):
     runs = []
     for attempt in range(3):
         run = run_real_once(case)
-        if attempt == 0 and not eqreal.G.has(case, ['exit0', 'exit1', 'hang', 'hang_deaf', 'drops']) \
-                and case.get('consume', ['full'])[0] == 'full':
+        if attempt == 0 and not eqreal.G.has(case, ['exit0', 'exit1', 'hang', 'hang_deaf', 'drops', 'unloadable']) \
+                and case.get('consume', ['full'])[0] == 'full' and not case.get('kill_idle_after'):
             run['inproc'] = run_real_once(case, dedicated=False)['cmps']
         run['anomalies'] = eqreal.anomalies(case, run)
         runs.append(run)
